@@ -163,6 +163,7 @@ def run(ctx):
     ctx.ob("C02.R6", "ppci/opt/mem2reg.py:is_alloc_promotable", "an alloc with a volatile load or store is not promoted to a register", ok, construct="mem2reg-volatile")
 
     _tailcall(ctx)
+    clean_pass(ctx, "C02.R8")
 
 
 def _tailcall(ctx):
@@ -214,3 +215,54 @@ def _anc(n):
         out.append(n)
         n = getattr(n, "_parent", None)
     return out
+
+
+def clean_pass(ctx, rid):
+    """CleanPass rewires edges.  A phi has ONE value per incoming BLOCK, so two edges from the same predecessor into a
+    block with phis cannot carry different values, and replace_incoming(old, ..) must run once per block whose phis
+    mention `old` (it raises KeyError the second time)."""
+    from .. import sym
+    C = "ppci/opt/clean.py"
+    ctx.rule(rid, "CleanPass: an empty block is bypassed only when that does not give its target two edges from one predecessor while the target has phis; when two blocks are glued, the phis of every DISTINCT successor are re-pointed exactly once", floor=4)
+    rb = ctx.fn(C, "CleanPass.remove_empty_blocks")
+    site = C + ":CleanPass.remove_empty_blocks"
+    ri = [c for c in calls_in(rb, "replace_incoming")]
+    ct = [c for c in calls_in(rb, "change_target")]
+    ctx.need(len(ri) == 1 and len(ct) == 1, "remove_empty_blocks: replace_incoming / change_target not found")
+    env = sym.single_assign_env(rb)
+    conds = sym.conjuncts(ri[0], rb, {})
+    def merges_guard(c, pol):
+        """not (T.phis and any(p in T.predecessors for p in <preds>))  - in any arrangement of the two facts"""
+        if pol is not False:
+            return False
+        parts = c.values if isinstance(c, ast.BoolOp) and isinstance(c.op, ast.And) else [c]
+        txt = [" ".join(norm(x).split()) for x in parts]
+        has_phis = any(t.endswith(".phis") or ".phis" in t for t in txt)
+        has_shared = any((".predecessors" in t and (" in " in t or "&" in t or "intersection" in t or "isdisjoint" in t)) for t in txt)
+        return has_phis and has_shared
+    g = [c for c, pol in conds if merges_guard(c, pol)]
+    ctx.ob(rid, site, "the block is left in place when its target has phis and one of the block's predecessors already jumps to that target (bypassing would merge two edges with possibly different phi values into one incoming block)", bool(g), construct="no-edge-merge-into-phis",
+           node=ri[0], detail="conditions in force at replace_incoming: %s" % "; ".join("%s%s" % ("" if pol else "not ", " ".join(norm(c).split())[:70]) for c, pol in conds))
+    selfloop = any((pol is False and " ".join(norm(c).split()) == "block in predecessors") or (pol is True and " ".join(norm(c).split()) == "block not in predecessors") for c, pol in conds)
+    ctx.ob(rid, site, "a block that jumps to itself is left alone", selfloop, construct="no-self-loop")
+    ok = norm(ri[0].args[0]) == "block" and norm(sym.deep_inline(ri[0].args[1], env)) == "block.predecessors" and ri[0].lineno < ct[0].lineno
+    ctx.ob(rid, site, "the target's phis take the bypassed block's value for each of its predecessors, before the predecessors are retargeted", ok, construct="phis-before-retarget")
+    gb = ctx.fn(C, "CleanPass.glue_blocks")
+    site = C + ":CleanPass.glue_blocks"
+    ri2 = [c for c in calls_in(gb, "replace_incoming")]
+    ctx.need(len(ri2) == 1, "glue_blocks: replace_incoming not found")
+    loop = [l for l in walk_no_nested(gb) if isinstance(l, ast.For) and any(x is ri2[0] for x in ast.walk(l))]
+    ok = False
+    det = ""
+    if loop:
+        it = loop[-1].iter
+        det = norm(it)
+        if isinstance(it, ast.Call) and norm(it.func) in ("set", "OrderedSet", "dict.fromkeys", "sorted") and ("set(" in norm(it) or "fromkeys" in norm(it) or "OrderedSet" in norm(it)):
+            ok = True
+        elif isinstance(it, ast.Name):
+            # a local list filled under a `not in` test
+            apps = [c for c in ast.walk(gb) if isinstance(c, ast.Call) and isinstance(c.func, ast.Attribute) and c.func.attr in ("append", "add") and norm(c.func.value) == it.id]
+            ok = bool(apps) and all(any(pol is True and isinstance(c, ast.Compare) and isinstance(c.ops[0], ast.NotIn) and norm(c.comparators[0]) == it.id for c, pol in sym.conjuncts(a, gb, {})) or a.func.attr == "add" for a in apps)
+            inits = [n for n in walk_no_nested(gb) if isinstance(n, ast.Assign) and norm(n.targets[0]) == it.id]
+            ok = ok and len(inits) == 1 and norm(inits[0].value) in ("[]", "set()", "OrderedSet()")
+    ctx.ob(rid, site, "replace_incoming runs once per distinct successor (Block.successors lists a block twice for `cjmp c ? S : S`; the second call raises KeyError)", ok, construct="distinct-successors", node=ri2[0], detail="iterates " + det)
